@@ -521,7 +521,8 @@ def run_check(mod, tier, seed, replay=None):
           what = _fails(mod, c) or what
       except Exception:
         pass
-    path = write_replay(pid, 'oracle', c, what, dict(seed=seed, tier=tier, others=len(new_fail) - 1))
+    path = write_replay(pid, 'oracle', c, what, dict(seed=seed, tier=tier, others=len(new_fail) - 1,
+                                                      broke=[w for w, _ in broken], broken=[list(x) for x in broken][:10]))
     lines.append(f'VIOLATION property={pid} replay={path}')
     violations += len(new_fail)
   elif broken or disagreements:
